@@ -448,7 +448,43 @@ def gen_mutant(rng, path):
 
 EXT4_THEOREMS = ['C02_clip_mask_buffers', 'C02_pattern_tile_follows_document', 'C02_filter_results_sized_by_region',
                  'C02_alloc_sites_classified', 'C02_sites_discharged', 'C02_subregion_clip_total',
-                 'C02_box_blur_line_covered', 'C02_convolve_wrap_terminates', 'C02_iir_loops', 'C02_turbulence_octaves_follow_document']
+                 'C02_box_blur_line_covered', 'C02_convolve_wrap_terminates', 'C02_iir_loops', 'C02_turbulence_octaves_follow_document',
+                 # second pass
+                 'C02_lighting_indices_in_range', 'C02_image_index_in_range', 'C02_displacement_indices_in_range', 'C02_transfer_indices_in_range',
+                 'C02_box_gauss_sizes_bounded', 'C02_f32_bound_limits', 'C02_nested_layers_bounded', 'C02_live_layers_linear',
+                 'C02_nested_image_layers_bounded', 'C02_image_nesting_depth']
+
+
+def ledger_counts():
+    """how the entries of Proofs/C02Ledger.v are discharged (proved / computed / reviewed = argued, NOT proved / known class)"""
+    try:
+        src = open(os.path.join(vlib.COQ, 'Proofs', 'C02Ledger.v'), encoding='utf-8').read()
+    except OSError:
+        return {}
+    out = {}
+    for key, pat in (('panic_proved', r'^\s*\(mk_psite .*, PProved '), ('panic_computed', r'^\s*\(mk_psite .*, PConst '),
+                     ('panic_reviewed', r'^\s*\(mk_psite .*, PReviewed '), ('panic_known_class', r'^\s*\(mk_psite .*, PKnown '),
+                     ('index_fns_proved', r'%nat\), IProved '), ('index_fns_reviewed', r'%nat\), IReviewed '),
+                     ('alloc_known_class', r'^\s*\(mk_asite .*, AKnown '), ('alloc_bounded', r'^\s*\(mk_asite .*, A(?!Known)')):
+        out[key] = len(re.findall(pat, src, re.M))
+    out['index_sites_proved'] = sum(int(n) for n in re.findall(r'(\d+)%nat\), IProved ', src))
+    out['index_sites_reviewed'] = sum(int(n) for n in re.findall(r'(\d+)%nat\), IReviewed ', src))
+    return out
+
+
+def live_docs():
+    """documents whose number of simultaneously live layer-sized buffers is n: nested isolated groups / chained filter primitives"""
+    out = []
+    for d in (1, 4, 16, 40):
+        body = '<rect x="-1000" y="-1000" width="3000" height="3000" fill="green"/>'
+        for _ in range(d):
+            body = '<g opacity="0.9">%s<rect width="3" height="3"/></g>' % body
+        out.append(('nested-groups', d, '<svg %s width="64" height="64">%s</svg>' % (rc.NS, body)))
+    for n in (1, 8, 32):
+        prims = ''.join('<feOffset dx="1" result="r%d"/>' % i for i in range(n))
+        out.append(('filter-primitives', n, '<svg %s width="64" height="64"><filter id="f" filterUnits="userSpaceOnUse" x="0" y="0" width="64" height="64">%s</filter>'
+                    '<rect width="64" height="64" fill="green" filter="url(#f)"/></svg>' % (rc.NS, prims)))
+    return out
 def failing_lemmas(res):
     """names of the lemmas / theorems the Coq errors of a failed build fall into (file, line -> enclosing statement)"""
     out = []
@@ -728,6 +764,26 @@ def run(ctx):
     if dbin is not None:
         st = run_renders(ctx, dbin, wit_items[1:], "witness", 'debug')
         ctx.cov['witnesses_debug'] = st
+
+    # ------------------------------------------------------------------ S: memory alive at the same time (C02_live_layers_linear)
+    ctx.cov['ledger'] = ledger_counts()
+    live = []
+    ld = live_docs()
+    for (kind, n, doc), o in zip(ld, ctx.rvh_batch(binp, 'c02-render', ["-\t%s\t64\t64\t1,0,0,1,0,0\tlimit=%d" % (d, LIMIT_MS) for _, _, d in ld], chunk=4)):
+        try:
+            r = json.loads(o)
+        except (TypeError, ValueError):
+            r = {}
+        ctx.note_case("live/%s/%d" % (kind, n), nontrivial=True)
+        bound = (n + 3) * K2 * 64 * 64 * 4 + (6 << 20)
+        live.append(dict(kind=kind, n=n, peak=r.get('peak'), largest=r.get('largest'), bound=bound))
+        if 'ok' not in r or r['peak'] > bound or r['largest'] > alloc_bound(64, 64):
+            ctx.violation("live memory: %d %s on a 64x64 canvas: peak %s bytes, largest %s (linear bound (n + 3) * k^2 * W*H*4 + 6 MiB = %d): %s"
+                          % (n, kind, r.get('peak'), r.get('largest'), bound, str(r)[:160]),
+                          dict(op='c02-render', profile='release', doc=doc, canvas=[64, 64], root_transform=[1, 0, 0, 1, 0, 0], result=r,
+                               theorem='C02_live_layers_linear'))
+    ctx.cov['live_memory'] = live
+    ctx.log("live memory (peak bytes by number of simultaneously live buffers): %s" % [(e['kind'], e['n'], e['peak']) for e in live])
 
     # ------------------------------------------------------------------ S: the sweep
     stats = {}
